@@ -180,8 +180,8 @@ def check(r, ctx):
                     ctx.label("op-skip")
                     continue
                 if op[0] == "overwrite":
-                    with open(path, "wb") as f:
-                        f.write(b"previous content " * 50)
+                    with open(path, "wb") as f:      # an existing file that is much LONGER than what will be written
+                        f.write(b"previous content " * 30000)
                 do_write(ww["w"], kind, path)
                 with open(path, "rb") as f:
                     raw = f.read()
